@@ -93,6 +93,7 @@ def classify(code):
     return d
 
 
+GROUP_MAX = 4
 IMM_KINDS = {"Immediate8", "Immediate8_2nd", "Immediate16", "Immediate32", "Immediate64", "Immediate8to16",
              "Immediate8to32", "Immediate8to64", "Immediate32to64"}
 
@@ -216,6 +217,12 @@ def generate(sc, tier, seed):
     by_file = {}
     unimpl_by_mn = {}
     quick_shapes = {"reg", "mem", "plain"}
+    groups = {}  # (file, pattern, shape, tier) -> [(block, desc)]
+    pattern_widths = {}
+    for form in inv:
+        if form["implemented"]:
+            pat = "_".join(re.sub(r"\d+$", "", t) if not t.isdigit() else t for t in form["code"].split("_")[1:])
+            pattern_widths.setdefault((form["file"], pat), set()).add(classify(form["code"])["w"])
     for form in inv:
         cls = classify(form["code"])
         enc = insn.Enc(form["opcode"])
@@ -240,16 +247,67 @@ def generate(sc, tier, seed):
         if not form["implemented"]:
             unimpl_by_mn.setdefault(form["mnemonic_fn"], []).append((form, good))
             continue
+        # operand pattern without widths: Add_rm8_r8 -> rm_r ; Shl_rm8_CL -> rm_CL
+        pattern = "_".join(re.sub(r"\d+$", "", t) if not t.isdigit() else t for t in form["code"].split("_")[1:])
+        base_pattern = pattern
+        if cls["op"] in ("Div", "Idiv", "Mul", "Imul1", "Imul2", "Imul3"):
+            pattern += "_w%d" % cls["w"]  # multiplier/divider circuits: one width per harness
         for shape, d in good:
             htier = "quick" if shape in quick_shapes else "thorough"
-            # quick tier: 64-bit and 8-bit widths of every operand pattern, every control/stack form
-            if htier == "quick" and cls["klass"] == "data" and cls["w"] in (16, 32) and cls["op"] not in (
-                    "Movzx", "Movsxd", "Cmov", "Lea", "Cdq", "Cwd", "MovdToXmm", "MovdFromXmm"):
-                htier = "thorough"
+            # quick tier: for the data class the 8- and 64-bit widths in the register shape and the
+            # widest width in the memory shape; every control-transfer and stack form
+            if htier == "quick" and cls["klass"] == "data":
+                ws = pattern_widths.get((form["file"], base_pattern), {cls["w"]})
+                if shape == "mem":
+                    if cls["w"] != max(ws):
+                        htier = "thorough"
+                elif cls["w"] not in (8, 64) and (8 in ws or 64 in ws):
+                    htier = "thorough"
             if not thorough and htier != "quick":
                 continue
-            txt = one_harness(form, cls, enc, shape, d, htier)
-            by_file.setdefault("gi_" + form["file"][:-3] + ".rs", []).append(txt)
+            # one group per (mnemonic file, shape); multiplier/divider circuits one width per harness
+            gpat = pattern if cls["op"] in ("Div", "Idiv", "Mul", "Imul1", "Imul2", "Imul3") else "all"
+            gkey = (form["file"][:-3], gpat, shape, htier)
+            if cls["op"] in ("Div", "Idiv") and cls["w"] >= 32:
+                c2 = dict(cls)
+                c2["op"] = cls["op"] + "Fault"
+                blk = form_block(form, c2, enc, shape, d, suffix="_fault", only_props=("C06", "C09"))
+                groups.setdefault(gkey[:3] + (htier, "fault"), []).append((blk, "%s [%s] %s fault-only" % (form["syntax"], form["opcode"], shape)))
+            blk = form_block(form, cls, enc, shape, d)
+            groups.setdefault(gkey, []).append((blk, "%s [%s] %s" % (form["syntax"], form["opcode"], shape)))
+    for gkey, lst in sorted(groups.items()):
+        hid = "gi_" + sanitize("_".join(str(x) for x in gkey if x not in ("quick", "thorough")))
+        if gkey[3] == "thorough" and any(k[:3] == gkey[:3] and k[3] == "quick" and k[4:] == gkey[4:] for k in groups):
+            hid += "_rest"
+        for i in range(0, len(lst), GROUP_MAX):
+            part = lst[i:i + GROUP_MAX]
+            h = hid if len(lst) <= GROUP_MAX else "%s_%d" % (hid, i // GROUP_MAX)
+            txt = group_harness(h, gkey[3], gkey[0], [b for b, _d in part], [d for _b, d in part])
+            by_file.setdefault("gi_" + gkey[0] + ".rs", []).append(txt)
+            meta["harnesses"] += 1
+    # C20: per mnemonic file one register-shape and one memory-shape form (widest width)
+    det_quick = {"add", "adc", "mul", "idiv", "shl", "mov", "movzx", "cmove", "push", "pop", "call", "ret", "jne", "lea",
+                 "xorps", "cpuid", "setb"}
+    det_done = set()
+    for form in sorted(inv, key=lambda f: -classify(f["code"])["w"]):
+        if not form["implemented"] or form["code"] not in meta["witnesses"]:
+            continue
+        cls = classify(form["code"])
+        if cls["op"] == "Other":
+            continue
+        enc = insn.Enc(form["opcode"])
+        fkey = form["file"][:-3]
+        for shape in ("reg", "mem", "plain"):
+            if (fkey, shape) in det_done:
+                continue
+            d = br.get("%s:%s" % (form["code"], shape))
+            if not d or d.get("code") != form["code"] or not d.get("rebuild_equal"):
+                continue
+            htier = "quick" if fkey in det_quick and shape in ("reg", "plain") else "thorough"
+            det_done.add((fkey, shape))
+            if not thorough and htier != "quick":
+                continue
+            by_file.setdefault("gd_determinism.rs", []).append(determinism_harness(form, cls, enc, shape, d, htier))
             meta["harnesses"] += 1
     # unimplemented forms: grouped, only "returns an error, never crashes"
     for mn, lst in sorted(unimpl_by_mn.items()):
@@ -264,15 +322,112 @@ def generate(sc, tier, seed):
             txt = unimpl_harness(mn, i // 10, part)
             by_file.setdefault("gi_" + part[0][0]["file"][:-3] + ".rs", []).append(txt)
             meta["harnesses"] += 1
+    progs = program_harnesses(sc, inv, meta)
+    if progs:
+        by_file.setdefault("gp_programs.rs", []).extend(progs)
+        meta["harnesses"] += len(progs)
     for fn, parts in by_file.items():
         files[fn] = HEADER + "\n".join(parts)
     return files, meta
 
 
-def one_harness(form, cls, enc, shape, d, htier):
+# ----------------------------------------------------------------------------------------
+# short programs (C04): several handlers in sequence vs the reference executed in sequence
+# ----------------------------------------------------------------------------------------
+PROGRAMS = [
+    ("mov_store_then_pop", ["48890424", "5b"], "mov [rsp],rax ; pop rbx  =>  rbx == rax (a value stored at [rsp] is what POP returns)",
+     "post.r[RBX_I] == pre.r[RAX_I]"),
+    ("push_then_load", ["50", "488b1c24"], "push rax ; mov rbx,[rsp]  =>  rbx == rax (PUSH stores at the new top of stack)",
+     "post.r[RBX_I] == pre.r[RAX_I]"),
+    ("store_call_ret", ["48890424", "e800000000", "c3"],
+     "mov [rsp],rax ; call next ; next: ret  =>  back after the call, RSP restored, [rsp] still rax (live slots survive calls)",
+     "post.r[RSP_I] == pre.r[RSP_I]"),
+    ("push_push_pop_pop", ["50", "53", "59", "5a"], "push rax ; push rbx ; pop rcx ; pop rdx  =>  rcx == rbx, rdx == rax, RSP restored",
+     "post.r[RCX_I] == pre.r[RBX_I] && post.r[RDX_I] == pre.r[RAX_I] && post.r[RSP_I] == pre.r[RSP_I]"),
+]
+
+
+def program_harnesses(sc, inv, meta):
+    by_code = {f["code"]: f for f in inv}
+    items = []
+    for name, insns, _d, _p in PROGRAMS:
+        off = 0
+        for n, hx in enumerate(insns):
+            items.append(("prog:%s:%d" % (name, n), bytes.fromhex(hx), 0x1000 + off))
+            off += len(hx) // 2
+    res = {}
+    for iid, b, ip in items:
+        res.update(insn.bridge(sc, [(iid, b)], ip=ip))
+    out = []
+    for name, insns, desc, direct in PROGRAMS:
+        hid = "gp_%s" % name
+        L = []
+        L.append('// @harness id=%s props=C04 crash=C04,C19 tier=quick group=program timeout=1500 desc="%s"' % (hid, desc))
+        L.append(STUBS.rstrip("\n"))
+        L.append("pub(crate) fn %s() {" % hid)
+        L.append("    let ip0: u64 = kani::any::<u64>();")
+        L.append("    let mut f0 = crate::verif::ib::NO_FIELDS;")
+        L.append("    f0.ip = ip0;")
+        L.append("    f0.len = 0;")
+        L.append("    let (mut ax, pre) = mk_machine(&f0, true, false, 0);")
+        L.append("    let mut m = pre; // reference machine")
+        L.append("    let mut emu_ok = true;")
+        off = 0
+        ok = True
+        for n, hx in enumerate(insns):
+            d = res["prog:%s:%d" % (name, n)]
+            if "code" not in d or not d.get("rebuild_equal") or d["code"] not in by_code or not by_code[d["code"]]["implemented"]:
+                ok = False
+                break
+            form = by_code[d["code"]]
+            cls = classify(d["code"])
+            rel = None
+            if any(k.startswith("NearBranch") for k in d["k"][:d["op_count"]]):
+                rel = (d["branch"] - (d["ip"] + d["len"])) & 0xFFFFFFFFFFFFFFFF
+            L.append("    // %s: %s" % (hx, form["syntax"]))
+            L.append("    let mut f = %s;" % fields_literal(d))
+            L.append("    f.ip = ip0.wrapping_add(%d);" % off)
+            if rel is not None:
+                L.append("    f.branch = f.ip.wrapping_add(f.len as u64).wrapping_add(%du64);" % rel)
+            L.append("    let next = f.ip.wrapping_add(f.len as u64);")
+            L.append("    // fetch: both machines must be at this instruction")
+            L.append("    emu_ok &= %s;" % ("true" if n == 0 else "ax.reg_read_64(crate::state::registers::SupportedRegister::RIP).ok() == Some(f.ip)"))
+            L.append("    kani::assume(%s);" % ("true" if n == 0 else "m.r[RIP_I] == f.ip"))
+            L.append("    m.r[RIP_I] = next;")
+            L.append("    ax.state.registers.insert(crate::state::registers::SupportedRegister::RIP, next);")
+            L.append("    let out = exec(&f, Op::%s, %d, %d, %d, &m);" % (cls["op"], cls["w"], cls["sw"], cls["cc"]))
+            L.append("    kani::assume(!out.fault && !out.skip); // the property is about runs the CPU completes")
+            if cls["op"] == "Ret":
+                L.append("    kani::assume(m.r[RSP_I].wrapping_add(8) != ax.stack_top && m.r[RSP_I] != ax.stack_top);")
+            L.append("    if emu_ok {")
+            L.append("        emu_ok &= ax.%s(rebuild(&f)).is_ok();" % form["mnemonic_fn"])
+            L.append("    }")
+            L.append("    m = out.m;")
+            off += len(hx) // 2
+        if not ok:
+            meta.setdefault("programs_skipped", []).append(name)
+            continue
+        L.append("    let post = capture(&ax, &pre);")
+        L.append('    vcheck!("C04|prog_%s|every_instruction_completes", emu_ok);' % name)
+        L.append("    if emu_ok {")
+        L.append('        vcheck!("C04|prog_%s|guest_visible_outcome", %s);' % (name, direct))
+        L.append("        let fin = Out { fault: false, m, def: 0, undef: 0, any_regs: 0, skip: false, fault_only: false };")
+        L.append("        let bad = diff(&fin, &pre, false, &post);")
+        L.append('        vcheck!("C04|prog_%s|final_registers_equal_cpu", bad & (D_GPR | D_RSP | D_RIP) == 0);' % name)
+        L.append('        vcheck!("C04|prog_%s|final_stack_memory_equals_cpu", bad & D_MEM == 0);' % name)
+        L.append("    }")
+        L.append('    vreach!("C04|prog_%s|reach_end", emu_ok);' % name)
+        L.append("    std::mem::forget(ax);")
+        L.append("}\n")
+        out.append("\n".join(L))
+    return out
+
+
+def form_block(form, cls, enc, shape, d, suffix="", only_props=None):
+    """Code of one form inside a (possibly grouped) harness: runs the handler on the shared
+    symbolic machine and compares with the reference. Returns (lines, props, has_mem, nxmm)."""
     code = form["code"]
-    tag = "%s:%s" % (code, shape)
-    hid = "gi_%s_%s" % (sanitize(code), shape)
+    tag = "%s:%s%s" % (code, shape, suffix)
     kinds = d["k"][:d["op_count"]]
     has_mem = "Memory" in kinds or cls["klass"] in ("stack", "callret")
     klass = cls["klass"]
@@ -280,41 +435,113 @@ def one_harness(form, cls, enc, shape, d, htier):
              "callret": "C03,C04,C02,C06,C09,C19", "os": "C19", "other": "C19"}[klass]
     if "Memory" in kinds and klass in ("data",):
         props += ",C08"
+    if only_props:
+        props = ",".join(only_props) + ",C19"
     nxmm = 2 if any(r.startswith("XMM") for r in d["r"]) else 0
-    sym_acc = "true" if has_mem else "false"
     lines = []
-    lines.append('// @harness id=%s props=%s crash=C06,C19 tier=%s group=%s timeout=1200 desc="%s [%s] %s bytes=%s"' % (
-        hid, props, htier, form["file"][:-3], form["syntax"], form["opcode"], shape, d["bytes"]))
-    lines.append(STUBS.rstrip("\n"))
-    lines.append("pub(crate) fn %s() {" % hid)
-    lines.append("    let mut f = %s;" % fields_literal(d))
-    lines.append("    f.ip = kani::any::<u64>();")
+    lines.append("// %s [%s] %s bytes=%s" % (form["syntax"], form["opcode"], shape, d["bytes"]))
+    lines.append("let mut f = %s;" % fields_literal(d))
+    lines.append("f.ip = ip;")
     for l in symbolic_parts(form, d, enc):
-        lines.append("    " + l)
-    lines.append("    let (mut ax, pre) = mk_machine(&f, %s, %s, %d);" % ("true" if has_mem else "false", sym_acc, nxmm))
+        lines.append(l)
+    lines.append("let next = f.ip.wrapping_add(f.len as u64);")
+    lines.append("ax.state.registers.insert(crate::state::registers::SupportedRegister::RIP, next);")
+    lines.append("let mut pre = pre0;")
+    lines.append("pre.r[RIP_I] = next;")
     if cls["op"] == "Ret":
-        lines.append("    // the emulator's top-level-return rule (C11) is not under test here")
-        lines.append("    kani::assume(pre.r[RSP_I].wrapping_add(8) != ax.stack_top && pre.r[RSP_I] != ax.stack_top);")
-    lines.append("    let r = ax.%s(rebuild(&f));" % form["mnemonic_fn"])
-    lines.append("    let post = capture(&ax, &pre);")
+        lines.append("// the emulator's top-level-return rule (C11) is not under test here")
+        lines.append("kani::assume(pre.r[RSP_I].wrapping_add(8) != ax.stack_top && pre.r[RSP_I] != ax.stack_top);")
+    lines.append("let r = ax.%s(rebuild(&f));" % form["mnemonic_fn"])
+    lines.append("let post = capture(&ax, &pre);")
     if klass in ("os", "other") or cls["op"] == "Other":
-        lines.append('    vcheck!("C19|%s|returns_ok_or_error", r.is_ok() || r.is_err());' % tag)
-        lines.append('    vreach!("C19|%s|reach");' % tag)
+        lines.append('vcheck!("C19|%s|returns_ok_or_error", r.is_ok() || r.is_err());' % tag)
+        lines.append('vreach!("C19|%s|reach");' % tag)
     else:
-        lines.append("    let out = exec(&f, Op::%s, %d, %d, %d, &pre);" % (cls["op"], cls["w"], cls["sw"], cls["cc"]))
-        lines.append("    let bad = diff(&out, &pre, r.is_err(), &post);")
+        lines.append("let out = exec(&f, Op::%s, %d, %d, %d, &pre);" % (cls["op"], cls["w"], cls["sw"], cls["cc"]))
+        lines.append("let bad = diff(&out, &pre, r.is_err(), &post);")
         for prop, field, maskexpr in labels_for(klass, tag, cls["op"]):
             if prop == "C09" and not has_mem:
                 continue
-            lines.append('    vcheck!("%s|%s|%s", bad & (%s) == 0);' % (prop, tag, field, maskexpr))
-        lines.append('    vcheck!("C19|%s|reference_models_this_form", !out.skip);' % tag)
+            if only_props and prop not in only_props:
+                continue
+            lines.append('vcheck!("%s|%s|%s", bad & (%s) == 0);' % (prop, tag, field, maskexpr))
+        lines.append('vcheck!("C19|%s|reference_models_this_form", !out.skip);' % tag)
         first = props.split(",")[0]
-        lines.append('    vreach!("%s|%s|reach_completes", !out.fault && !out.skip);' % (first, tag))
+        lines.append('vreach!("%s|%s|reach_completes", !out.fault && !out.skip);' % (first, tag))
         if has_mem and cls["op"] not in ("Lea",):
-            lines.append('    vreach!("C06|%s|reach_fault", out.fault);' % tag)
-    lines.append("    std::mem::forget(ax);")
-    lines.append("}\n")
-    return "\n".join(lines)
+            lines.append('vreach!("C06|%s|reach_fault", out.fault);' % tag)
+    return lines, props, has_mem, nxmm
+
+
+def group_harness(hid, htier, group, blocks, descs):
+    """One harness: a shared symbolic machine and one guarded block per form, selected by a
+    symbolic selector (so every block is decided for all inputs; the fixed per-harness cost of
+    table construction and goto-instrument is paid once)."""
+    props, has_mem, nxmm = set(), False, 0
+    for _l, p, m, x in blocks:
+        props.update(p.split(","))
+        has_mem |= m
+        nxmm = max(nxmm, x)
+    order = ["C01", "C02", "C03", "C04", "C06", "C08", "C09", "C19"]
+    props = [p for p in order if p in props]
+    L = []
+    L.append('// @harness id=%s props=%s crash=C06,C19 tier=%s group=%s timeout=1500 desc="%s"' % (
+        hid, ",".join(props), htier, group, "; ".join(descs)[:900]))
+    L.append(STUBS.rstrip("\n"))
+    L.append("pub(crate) fn %s() {" % hid)
+    L.append("    let ip: u64 = kani::any::<u64>();")
+    L.append("    let mut f0 = crate::verif::ib::NO_FIELDS;")
+    L.append("    f0.ip = ip;")
+    L.append("    f0.len = 0;")
+    L.append("    let (mut ax, pre0) = mk_machine(&f0, %s, %s, %d);" % ("true" if has_mem else "false", "true" if has_mem else "false", nxmm))
+    if len(blocks) > 1:
+        L.append("    let sel: u8 = kani::any::<u8>();")
+        L.append("    kani::assume(sel < %d);" % len(blocks))
+    for n, (lines, _p, _m, _x) in enumerate(blocks):
+        L.append("    %s{" % (("if sel == %d " % n) if len(blocks) > 1 else ""))
+        for l in lines:
+            L.append("        " + l)
+        L.append("    }")
+    L.append("    std::mem::forget(ax);")
+    L.append("}\n")
+    return "\n".join(L)
+
+
+def determinism_harness(form, cls, enc, shape, d, htier):
+    """C20: two machines that agree on every explicit input and differ in unwritten registers."""
+    code = form["code"]
+    tag = "%s:%s" % (code, shape)
+    hid = "gd_%s_%s" % (sanitize(code), shape)
+    kinds = d["k"][:d["op_count"]]
+    has_mem = "Memory" in kinds or cls["klass"] in ("stack", "callret")
+    nxmm = 2 if any(r.startswith("XMM") for r in d["r"]) else 0
+    L = []
+    L.append('// @harness id=%s props=C20 crash=C19 tier=%s group=determinism timeout=1500 desc="two runs of %s [%s] %s from machines equal on all explicit inputs, arbitrary elsewhere"' % (
+        hid, htier, form["syntax"], form["opcode"], shape))
+    L.append(STUBS.rstrip("\n"))
+    L.append("pub(crate) fn %s() {" % hid)
+    L.append("    let mut f = %s;" % fields_literal(d))
+    L.append("    f.ip = kani::any::<u64>();")
+    for l in symbolic_parts(form, d, enc):
+        L.append("    " + l)
+    L.append("    let (mut a, pre_a) = mk_machine(&f, %s, false, %d);" % ("true" if has_mem else "false", nxmm))
+    L.append("    let (mut b, pre_b, written) = mk_twin(&f, Op::%s, &pre_a, a.stack_top);" % cls["op"])
+    L.append("    let ra = a.%s(rebuild(&f));" % form["mnemonic_fn"])
+    L.append("    let rb = b.%s(rebuild(&f));" % form["mnemonic_fn"])
+    L.append("    let pa = capture(&a, &pre_a);")
+    L.append("    let pb = capture(&b, &pre_b);")
+    L.append("    let bad = twin_diff(&ra, &rb, &a, &b, &pa, &pb, written);")
+    L.append('    vcheck!("C20|%s|same_outcome", bad & T_OUTCOME == 0);' % tag)
+    L.append('    vcheck!("C20|%s|written_registers_agree", bad & T_REGS == 0);' % tag)
+    L.append('    vcheck!("C20|%s|flags_and_segments_agree", bad & T_FLAGS == 0);' % tag)
+    L.append('    vcheck!("C20|%s|memory_agrees", bad & T_MEM == 0);' % tag)
+    L.append('    vcheck!("C20|%s|vector_registers_agree", bad & T_XMM == 0);' % tag)
+    L.append('    vcheck!("C20|%s|trace_and_counters_agree", bad & T_TRACE == 0);' % tag)
+    L.append('    vreach!("C20|%s|reach_differing_unwritten_register", written != 0x1ffff && ra.is_ok());' % tag)
+    L.append("    std::mem::forget(a);")
+    L.append("    std::mem::forget(b);")
+    L.append("}\n")
+    return "\n".join(L)
 
 
 def unimpl_harness(mn, idx, part):
